@@ -6,4 +6,5 @@ TARGETS = {
     "c15_revmovegen": dict(flavours=["seq", "fast"], src=["harness/c15_revmovegen.cpp"], net="stub"),
     "c20_csp": dict(flavours=["seq", "fast"], src=["harness/c20_csp.cpp"], net="stub"),
     "c17_text": dict(flavours=["seq", "fast"], src=["harness/c17_text.cpp"], net="stub"),
+    "c18_book": dict(flavours=["seq"], src=["harness/c18_book.cpp"], net="stub", ldflags="-Wl,--wrap=_ZN6Random7nextIntEi"),
 }
